@@ -210,6 +210,9 @@ func ruleC17(c *Ctx) {
 				stG = holds
 			case base != nil && base.isParam(0):
 				stG, whyG = broken, fmt.Sprintf("the cyclic closure appends the first n%+d letters; a linear De Bruijn sequence of order n needs exactly n-1 (length 4^n+n-1, the wrap-around words once)", k)
+			case !sfx.Args[2].contains(func(x *Term) bool { return x.Op == "param" || x.Op == "phi" || x.Op == "freevar" || x.Op == "alloc" }) && len(opaqueParts(sfx.Args[2], nil)) == 0:
+				// a bound made of constants only (len of the alphabet, a literal): right for one order at most
+				stG, whyG = broken, "the cyclic closure appends b[0:"+short(sfx.Args[2].String())+"], a length that does not depend on the order n: every order but one gets the wrong number of wrap-around letters"
 			default:
 				whyG = "the closure appends b[0:" + short(sfx.Args[2].String()) + "]"
 			}
